@@ -88,17 +88,26 @@ def shape_of(node):
     return C.norm(node.zero().toJson(), drop_names=True) if hasattr(node, "zero") else None
 
 
-def attempt(h, mode):
+def attempt(h, mode, callno=2):
+    """Call 1 uses a record that fails every cut (s False), call 3 one whose selection weight is exactly 0.0, the
+    others a passing record: a tree with a shared node must be refused whatever the data are."""
+    rec = dict(REC)
+    if callno == 1:
+        rec["s"] = False
+    elif callno == 3:
+        rec["s"] = 0.0
     if mode == "fill":
-        h.fill(dict(REC))
+        h.fill(rec)
     else:
         from .c03 import to_batch
 
-        h.fill.numpy(to_batch([dict(REC), dict(REC)]))
+        h.fill.numpy(to_batch([dict(rec), dict(rec)]))
 
 
 def check_shared(spec, pa, pb, mode, via):
-    """Install the object found at position pa also at position pb (via attribute surgery), then fill."""
+    """Install the object found at position pa also at position pb (via attribute surgery), then fill.
+    via == "preverified": the top-level subtree containing pa was filled successfully on its own beforehand (a walk
+    that trusts already-verified subtrees must still see their nodes)."""
     from histogrammar.defs import ContainerException
 
     args = {"spec": spec, "pa": [list(k) for k in pa], "pb": [list(k) for k in pb], "mode": mode, "via": via}
@@ -109,6 +118,8 @@ def check_shared(spec, pa, pb, mode, via):
         pos[()] = (None, None, h)
         a = pos[tuple(pa)]
         b = pos[tuple(pb)]
+        if via == "preverified":
+            attempt(pos[tuple(pa[:1])][2], mode, 2)
         install(b[0], b[1], a[2])
     except Exception as e:
         return [core.v_exc(PROP, "shared", "harness could not build the shared tree", e, args)]
@@ -120,7 +131,7 @@ def check_shared(spec, pa, pb, mode, via):
         except Exception:
             before = None
         try:
-            attempt(h, mode)
+            attempt(h, mode, callno)
         except ContainerException:
             if before is not None:
                 try:
@@ -186,6 +197,10 @@ def check_constructed(kind, mode):
         "Label(a=Select(s,c),b=Select(s,c))": lambda: hg.Label(a=hg.Select(s, c), b=hg.Select(s, c)),
         "Index(Branch(c,b),Branch(b,c))": lambda: hg.Index(hg.Branch(c, hg.Count()), hg.Branch(hg.Count(), c)),
         "Branch(c,Branch(Count,Branch(c)))": lambda: hg.Branch(c, hg.Branch(hg.Count(), hg.Branch(c))),
+        "Branch(filled Select(s,c), c)": lambda: hg.Branch(_filled(hg.Select(s, c), mode), c),
+        "Label(a=filled Select(s,b), b=Select(s,b))": lambda: hg.Label(a=_filled(hg.Select(s, b), mode), b=hg.Select(s, b)),
+        "Select(s, Branch(c,c))": lambda: hg.Select(s, hg.Branch(c, c)),
+        "Fraction root: numerator is denominator": lambda: _frac(hg, s, c),
     }
     out = []
     try:
@@ -195,7 +210,7 @@ def check_constructed(kind, mode):
     for callno in (1, 2, 3):
         before = h.toJson()
         try:
-            attempt(h, mode)
+            attempt(h, mode, callno)
         except ContainerException:
             d = C.diff(h.toJson(), before, tol_keys=())
             if d:
@@ -212,7 +227,19 @@ def check_constructed(kind, mode):
     return out
 
 
-CONSTRUCTED = ["Label(a=c,b=c)", "UntypedLabel(a=c,b=c)", "Index(c,c)", "Branch(c,c)", "Branch(Select(s,b),Select(s,b))",
+def _filled(h, mode):
+    attempt(h, mode, 2)
+    return h
+
+
+def _frac(hg, s, c):
+    f = hg.Fraction(s, hg.Sum(lambda d: d["x"]))
+    f.denominator = f.numerator
+    return f
+
+
+CONSTRUCTED = ["Branch(filled Select(s,c), c)", "Label(a=filled Select(s,b), b=Select(s,b))", "Select(s, Branch(c,c))",
+               "Fraction root: numerator is denominator","Label(a=c,b=c)", "UntypedLabel(a=c,b=c)", "Index(c,c)", "Branch(c,c)", "Branch(Select(s,b),Select(s,b))",
                "Branch(b,Select(s,b))", "Label(a=Select(s,c),b=Select(s,c))", "Index(Branch(c,b),Branch(b,c))",
                "Branch(c,Branch(Count,Branch(c)))"]
 
@@ -263,13 +290,16 @@ def _tree(task):
             if sig[pa] != sig[pb]:
                 continue
             for a, b in ((pa, pb), (pb, pa)):
-                if tuple(b[: len(a)]) == tuple(a) and len(b) > len(a):
-                    pass  # installing an ancestor below itself: node-is-own-descendant case
                 acc.add(check_shared(spec, a, b, mode, "surgery"))
                 acc.n("shared_cases")
                 acc.n("expected_to_raise")
                 acc.n("relation_" + relation(a, b))
                 acc.distinct("cases", FW.hkey((S.key(spec), repr(a), repr(b), mode)))
+                if len(a) >= 2 and tuple(b[:1]) != tuple(a[:1]) and (mode == "fill" or S.fields(spec)):
+                    # the subtree holding the first occurrence was used (and verified) on its own before
+                    acc.add(check_shared(spec, a, b, mode, "preverified"))
+                    acc.n("shared_cases")
+                    acc.n("preverified_cases")
         # a node installed below itself
         for p, par, key, node in [((), None, None, h)] + pos:
             for p2, par2, key2, node2 in pos:
